@@ -59,11 +59,15 @@ namespace foonathan
                 static constexpr std::size_t min_element_alignment = 1;
 
                 // minimal size of the block that needs to be inserted
+                // insert() starts every chunk at a multiple of alignof(chunk),
+                // so each chunk occupies its size rounded up to that alignment
                 static constexpr std::size_t min_block_size(std::size_t node_size,
                                                             std::size_t number_of_nodes)
                 {
                     return chunk_count(number_of_nodes)
-                           * (chunk_memory_offset + chunk_max_nodes * node_size);
+                           * round_up_to_multiple_of_alignment(chunk_memory_offset
+                                                                   + chunk_max_nodes * node_size,
+                                                               alignof(chunk_base));
                 }
 
                 //=== constructor ===//
